@@ -268,3 +268,40 @@ def blocks(fnode):
         yield v
     for h in getattr(st, 'handlers', []) or []:
       yield h.body
+
+
+def expand_locals(fn, expr, module_assigns=None, depth=6):
+  """A copy of `expr` in which every local that is assigned exactly once in `fn` (by a plain `name = value`,
+  outside loops) is replaced by its value, recursively; names bound once at module level (module_assigns:
+  name -> [value nodes]) are replaced as well.  Used to look through temporaries and hoisted constants."""
+  import copy
+  defs = {}
+  counts = {}
+  params = set(a.arg for a in fn.args.posonlyargs + fn.args.args + fn.args.kwonlyargs)
+  in_loop = set()
+  for st in walk_stmts(fn):
+    for tgt, val, op in store_targets(st):
+      if isinstance(tgt, ast.Name):
+        counts[tgt.id] = counts.get(tgt.id, 0) + 1
+        if op == 'store' and val is not None and isinstance(st, ast.Assign) and len(st.targets) == 1 and st.targets[0] is tgt:
+          defs[tgt.id] = val
+          if enclosing_loops(fn, st):
+            in_loop.add(tgt.id)
+    if isinstance(st, (ast.For, ast.AsyncFor)):
+      for n in ast.walk(st.target):
+        if isinstance(n, ast.Name):
+          counts[n.id] = counts.get(n.id, 0) + 2
+
+  class Sub(ast.NodeTransformer):
+    def __init__(self, d):
+      self.d = d
+
+    def visit_Name(self, node):
+      if not isinstance(node.ctx, ast.Load) or self.d <= 0:
+        return node
+      if node.id in defs and counts.get(node.id) == 1 and node.id not in params and node.id not in in_loop:
+        return Sub(self.d - 1).visit(copy.deepcopy(defs[node.id]))
+      if module_assigns and node.id not in counts and node.id not in params and len(module_assigns.get(node.id, [])) == 1:
+        return Sub(self.d - 1).visit(copy.deepcopy(module_assigns[node.id][0]))
+      return node
+  return Sub(depth).visit(copy.deepcopy(expr))
